@@ -250,7 +250,27 @@ def gen_history_corpus(tier):
                         yield {"a": name, "wrap": "r", "hist": steps, "on": on, "text": text, "exact": False}
 
 
+# A lookup (`sandbox[name]`) searches the sandbox's whole list of past executions, which only grows during a run:
+# the number of lookup steps per run is bounded, later ones become evaluate() steps (decided here, in the generators,
+# so that a case description always says what was executed).
+_lookup_budget = [0]
+
+
+def take_lookup():
+    if _lookup_budget[0] <= 0:
+        return False
+    _lookup_budget[0] -= 1
+    return True
+
+
 def random_step(rng, depth):
+    st = _random_step(rng, depth)
+    if st[0] == "getitem" and not take_lookup():
+        return ["eval"]
+    return st
+
+
+def _random_step(rng, depth):
     r = rng.random()
     if r < 0.12:
         return ["open"]
@@ -294,7 +314,7 @@ def gen_history_random(rng, tier):
     """longer histories over the whole step vocabulary (nested blocks, evaluate, run of instructor code, the student
     program again, output without a final newline, a call that prints and then fails, a call of a missing function,
     variable lookups), several probes each: any operand, any output assertion, exact or not, raw or proxied text"""
-    n, per = (260, 8) if tier == "quick" else (9000, 12)
+    n, per = (260, 8) if tier == "quick" else (5000, 12)
     for _ in range(n):
         steps = random_steps(rng, rng.randrange(2, 8))
         probes = hist_probes(steps)
@@ -321,14 +341,18 @@ HOWS = ["ident", "ident", "evalv", "getv"]
 def value_history(rng, name, wrap, boom_side=None):
     """steps that produce the operands of a value assertion among other executions"""
     def noise(k):
-        return [list(rng.choice(NOISE)) for _ in range(k)]
+        out = [list(rng.choice(NOISE)) for _ in range(k)]
+        return [["eval"] if st[0] == "getitem" and not take_lookup() else st for st in out]
     steps = noise(rng.randrange(0, 3))
     sides = [("L", wrap[0])] + ([("R", wrap[1])] if name not in ac.UNARY else [])
     if rng.random() < 0.5:
         sides.reverse()
     for side, w in sides:
         if w == "p":
-            steps.append([side, "boom" if side == boom_side else rng.choice(HOWS)])
+            how = "boom" if side == boom_side else rng.choice(HOWS)
+            if how == "getv" and not take_lookup():
+                how = "evalv"
+            steps.append([side, how])
             steps += noise(rng.randrange(0, 3))
     if not well_formed(steps):
         steps = [st for st in steps if st[0] != "close"]
@@ -361,7 +385,7 @@ def gen_value_history(rng, tier, P):
                 if not unary:
                     d["r"] = _v(r)
                 yield {"a": name, "wrap": wrap, "desc": d, "vhist": steps}
-    n = 900 if tier == "quick" else 30000
+    n = 900 if tier == "quick" else 12000
     names = ac.ORDER + ac.MEMBER + ac.IDENT + ac.LENGTH + ac.EQUAL + ac.REGEX + ac.UNARY
     for _ in range(n):
         name = rng.choice(names)
@@ -835,6 +859,7 @@ def eqtest_stream(rng, tier, P, driver, res):
 # correspondence
 
 def all_cases(rng, tier, P):
+    _lookup_budget[0] = 700 if tier == "quick" else 2500
     return itertools.chain(corpus_cases(P), gen_history_corpus(tier), gen_unary(rng, tier, P), gen_output(rng, tier, P),
                            gen_history_random(rng, tier), gen_value_history(rng, tier, P),
                            gen_equal_options(rng, tier, P), gen_spelling(rng, tier, P),
